@@ -1644,7 +1644,12 @@ func (c *DefaultCtx) SendFile(file string, config ...SendFile) error {
 
 	// Restore the original requested URL
 	originalURL := utils.CopyString(c.OriginalURL())
-	defer c.fasthttp.Request.SetRequestURI(originalURL)
+	defer func() {
+		c.fasthttp.Request.SetRequestURI(originalURL)
+		// Parse it right away: values the handler obtained before (Host, ...) are views of the
+		// URI buffers, which the file handler has filled from its own URI in the meantime
+		c.fasthttp.Request.URI()
+	}()
 
 	// Set new URI for fileHandler
 	c.fasthttp.Request.SetRequestURI(file)
